@@ -33,7 +33,9 @@ OPts == Tr.pts
 OEnd == OPts[Len(OPts)]
 OInSpan(s) == Sorted({t \in ToSetS(Tr.meas[s]) : t >= Tr.start /\ t < OEnd})
 ONoData == \A s \in 1..Tr.ns : OInSpan(s) = <<>>
-ExpWidth(s) == IF Tr.alt \/ Tr.names[s] = "BodyVelocity" THEN 3 ELSE 2
+\* rows of (z, H, R): the built-in classes give 3, Position / NedVelocity 2 without altitude; "BaroAltitude" is the harness' own
+\* scalar user-defined measurement (documented extension point), used in 3D runs only
+ExpWidth(s) == IF Tr.names[s] = "BaroAltitude" THEN 1 ELSE IF Tr.alt \/ Tr.names[s] = "BodyVelocity" THEN 3 ELSE 2
 MLines == SelectSeq(Ev, LAMBDA e : e.a = "M")
 
 Clauses == [
@@ -69,6 +71,7 @@ DataflowClause ==
                 /\ MLines[k].c[j].pin_ok                          \* every correction starts from the CURRENT covariance
                 /\ MLines[k].c[j].xin_ok                          \* ... and error vector (zeros at the start of an epoch: errors were fed back)
                 /\ MLines[k].c[j].args_ok                         \* (z, H in the INS block and zero elsewhere, R) as the measurement model returned them
+                /\ MLines[k].c[j].out_ok                          \* ... and what comes back is the conditional mean / covariance (numeric predicate, 1e-6)
           /\ MLines[k].set_ok                                     \* the state fed back is correct_pva(CURRENT integrator state, x[INS block])
           /\ MLines[k].upd_ok                                     \* the sensor estimates get the gyro / accel blocks of the same x
     /\ \A k \in 1..Len(ALines) : ALines[k].dt_ok /\ ALines[k].fq_ok  \* P is propagated over exactly the interval the integrator advanced, with the
